@@ -56,6 +56,10 @@ func streamable(r Row) bool {
 		return false
 	case c.A == "valid1" || c.B == "valid1": // single-byte names are left to binding A
 		return false
+	case isPub(c.Op) && c.A == "dying":
+		// a topic whose deletion is parked half-way is daemon state prepared per sequence by the replayer
+		// (dying.go); a pipelined stream cannot set it up, the classifier never names it: binding A only
+		return false
 	}
 	return true
 }
